@@ -10,16 +10,21 @@ RULE_C03 = 'C03 profile: instances moved between allocations of different partit
 def run(tier, seed):
     spec = E.make_spec(PID, PROFILE_C03, RULE_C03)
     # Loader glue for one manifest / one server record: Master/LoadApp.v, Props/C03Load.v, harness/props/loadapp.py
-    from . import loadapp
-    spec['trusted'] = list(spec['trusted']) + list(loadapp.TRUSTED)
-    spec['assumptions'] = list(spec['assumptions']) + list(loadapp.ASSUMPTIONS)
-    spec['table_sections'] = list(spec['table_sections']) + list(loadapp.SECTIONS)
+    # where valid_until comes from: Partition / RebootBucket / reboot_dates - Sched/Reboot.v, Props/C03Reboot.v,
+    # harness/props/reboot.py
+    from . import loadapp, reboot
+    spec['trusted'] = list(spec['trusted']) + list(loadapp.TRUSTED) + list(reboot.TRUSTED)
+    spec['assumptions'] = list(spec['assumptions']) + list(loadapp.ASSUMPTIONS) + list(reboot.ASSUMPTIONS)
+    spec['table_sections'] = list(spec['table_sections']) + list(loadapp.SECTIONS) + list(reboot.SECTIONS)
     inner = spec.get('extra')
 
     def extra(r, cases, obs):
         cov = inner(r, cases, obs) if inner else {}
         u = loadapp.stage(r, seed, tier)
         cov['extra_obligations'] = cov.get('extra_obligations', 0) + u.pop('loadapp_obligations')
+        cov.update(u)
+        u = reboot.stage(r, seed, tier)
+        cov['extra_obligations'] = cov.get('extra_obligations', 0) + u.pop('reboot_obligations')
         cov.update(u)
         return cov
     spec['extra'] = extra
@@ -31,4 +36,7 @@ def replay_case(case):
     if isinstance(case, dict) and case.get('engine') == 'E-loadapp':
         from . import loadapp
         return loadapp.replay_case(case)
+    if isinstance(case, dict) and case.get('engine') == 'E-reboot':
+        from . import reboot
+        return reboot.replay_case(case)
     return E.replay(PID, case)
